@@ -63,7 +63,7 @@ def gen_scenario(rng, index):
     mix = rng.choice(["recompile-heavy", "mixed", "construct-heavy", "call-heavy"])
     if family == "race":
         n_shared, n_threads, max_ops, mix = 1, rng.choice([2, 2, 2, 3, 4]), 2, rng.choice(["race", "race", "recompile-heavy", "call-vs-recompile",
-                                                                                          "call-vs-recompile", "call-vs-recompile", "call-storm"])
+                                                                                          "call-vs-recompile", "call-vs-recompile", "call-storm", "call-storm"])
         if mix == "call-storm":
             n_shared = 2
     if family == "cold":
@@ -76,11 +76,18 @@ def gen_scenario(rng, index):
             # nothing but calls, on shared and private evaluators, under dense switching: shared scratch state on the evaluation path
             if rng.random() < 0.5:
                 ops.append({"op": "new", "t": rng.randrange(n_valid)})
-            for _ in range(rng.randint(3, 8)):
+            if _t == 0:
+                # in half of the storms the threads ask about the same few units (one unit evaluated by two threads at once is
+                # the everyday case of a request-serving process, and the one in which per-key scratch state collides)
+                storm_pool = [gen.gen_fields(rng, progs[rng.randrange(n_valid)], ascii_only=True, p_missing=0.0)
+                              for _ in range(rng.choice([2, 3, 4]))] if rng.random() < 0.65 else None
+            for _ in range(rng.randint(3, 8) if storm_pool is None else rng.randint(6, 20)):
+                f = rng.choice(storm_pool) if storm_pool and rng.random() < 0.8 else \
+                    gen.gen_fields(rng, progs[rng.randrange(n_valid)], ascii_only=True, p_missing=0.0)
                 if rng.random() < 0.7 or not ops:
-                    ops.append({"op": "call", "s": rng.randrange(n_shared), "f": gen.gen_fields(rng, progs[rng.randrange(n_valid)], ascii_only=True, p_missing=0.0)})
+                    ops.append({"op": "call", "s": rng.randrange(n_shared), "f": f})
                 else:
-                    ops.append({"op": "pcall", "f": gen.gen_fields(rng, progs[rng.randrange(n_valid)], ascii_only=True, p_missing=0.0)})
+                    ops.append({"op": "pcall", "f": f})
             th.append(ops)
             continue
         if mix == "call-vs-recompile":
@@ -121,8 +128,10 @@ def gen_scenario(rng, index):
     pk = rng.choice(["bernoulli", "bernoulli", "targeted", "targeted", "targeted", "pct", "park", "park"])
     if family == "race" and rng.random() < 0.6:
         pk = rng.choice(["targeted", "park", "park"])
+    storm_park = False
     if family == "race" and mix == "call-storm":
         pk = "bernoulli"
+        storm_park = storm_pool is not None and rng.random() < 0.7
     if family == "cold":
         # first-use races: one thread should get well ahead of the others before they start
         pk = rng.choice(["pct", "bernoulli", "targeted", "park", "park", "park"])
@@ -140,8 +149,13 @@ def gen_scenario(rng, index):
                   "mode": rng.choice(["late", "late", "uniform", "uniform", "fixed"]), "back": rng.randrange(0, 16)}
     else:
         policy = {"kind": "pct", "d": rng.choice([1, 2, 3])}
+    if storm_park:
+        # repeated delay injection over a call-only workload: again and again one thread is held at some instruction of the evaluation path
+        # (every package instruction counts as a hot point there) while another thread completes a whole call
+        policy = {"kind": "park", "p_line": 0.0, "p_hot": rng.choice([0.0, 0.0, 0.02]), "k_max": rng.choice([60, 200]), "need": rng.choice([1, 1, 2]),
+                  "mode": "fixed", "back": 0, "rearm": rng.choice([25, 60, 150])}
     sc_pre = rng.choice([0] * 16 + [150, 300]) if family != "cold" else 0
-    return {"index": index, "texts": texts, "shared": shared, "threads": th, "policy": policy, "sched_stream": "sched",
+    return {"index": index, "all_hot": storm_park, "texts": texts, "shared": shared, "threads": th, "policy": policy, "sched_stream": "sched",
             "epi": rng.random(), "family": family,
             # a long-lived process: this many small distinct texts are compiled (sequentially) before the threads start, so that
             # bounded process-wide caches are full and their eviction paths run during the race
@@ -223,7 +237,7 @@ class Runner:
                     late = (ends, pol.get("back", 0))
                 elif pol.get("mode") == "uniform":
                     k_max = max(8, max((e[-1] for e in ends if e), default=k_max))
-            return threads.ParkChooser(rng, len(sc["threads"]), pol["p_line"], pol["p_hot"], k_max, pol.get("need", 1), late)
+            return threads.ParkChooser(rng, len(sc["threads"]), pol["p_line"], pol["p_hot"], k_max, pol.get("need", 1), late, pol.get("rearm", 0))
         return threads.BernoulliChooser(rng, pol["p_line"], pol["p_hot"])
 
     def run(self, sc, seed, decisions=None):
@@ -330,6 +344,7 @@ class Runner:
         chooser = self.make_chooser(sc, seed, decisions, est, judged)
         sched = threads.Scheduler([make_body(i, ops) for i, ops in enumerate(sc["threads"])], chooser, self.fc,
                                   step_cap=max(2_000_000, 4 * need))
+        sched.all_hot = bool(sc.get("all_hot"))
         sched.run()
         info = {"steps": sched.step, "switches": sched.switches, "hot_points": sched.hot_points,
                 "digest": "%016x" % (sched.digest & 0xFFFFFFFFFFFFFFFF), "switch_digest": "%016x" % (sched.switch_digest & 0xFFFFFFFFFFFFFFFF),
